@@ -519,6 +519,7 @@ def history_late_grad(ck, scen, rng, out):
             return
         if abs(float(val.detach()) - v_f) > 1e-9 * max(1.0, abs(v_f)):
             ck.bucket("history/value-differs(C11 subject)")
+            out["skip"].append((scen.name, "history-value-differs", " | ".join(history)[:200]))
             return
         try:
             if val.requires_grad:
@@ -584,6 +585,7 @@ def history_update_one(ck, scen, rng, out, inplace):
         return
     if not math.isfinite(float(val.detach())) or abs(float(val.detach()) - v_f) > 1e-9 * max(1.0, abs(v_f)):
         ck.bucket("history/value-differs(C11 subject)")
+        out["skip"].append((scen.name, "history-value-differs", " | ".join(history)[:200]))
         return
     try:
         if val.requires_grad:
@@ -606,6 +608,429 @@ def check_histories(ck, scen, rng, out, which):
         history_update_one(ck, scen, rng, out, False)
     if "inplace" in which:
         history_update_one(ck, scen, rng, out, True)
+
+
+# ----------------------------------------------------------------------------- fourth wave: how the object is reached
+import contextlib  # noqa: E402
+
+
+@contextlib.contextmanager
+def dtype_regime(default, param):
+    """torch default dtype `default`, leaf parameters created with dtype `param`"""
+    import torch
+
+    import c12_scen
+
+    old_d, old_p = torch.get_default_dtype(), dict(c12_scen.PDT)
+    torch.set_default_dtype(default)
+    c12_scen.PDT.update(name=str(param), t=param)
+    try:
+        yield
+    finally:
+        torch.set_default_dtype(old_d)
+        c12_scen.PDT.update(old_p)
+
+
+def _flat(v):
+    return [y for x in v for y in _flat(x)] if isinstance(v, (list, tuple)) else [v]
+
+
+def _close_lists(a, b, rel, floor):
+    if a is None or b is None:
+        a = a or [0.0] * len(b or [])
+        b = b or [0.0] * len(a)
+    if len(a) != len(b):
+        return False
+    return all(abs(x - y) <= rel * max(abs(x), abs(y)) + floor for x, y in zip(a, b))
+
+
+def _moved_point(scen, rng):
+    vals = scen.x
+    new = {}
+    for k, v in vals.items():
+        lo, hi = scen.bounds[k]
+        coords = set(leaf_coords(scen, k))
+        nv = []
+        for i, x in enumerate(v):
+            if i not in coords:
+                nv.append(x)
+                continue
+            room = min(0.02 * max(abs(x), 0.1), 0.2 * (x - lo) if lo is not None else math.inf,
+                       0.2 * (hi - x) if hi is not None else math.inf)
+            nv.append(x + rng.uniform(-1, 1) * room)
+        new[k] = nv
+    return new
+
+
+def _finding(out, kind, scen, vals, **kw):
+    d = {"kind": kind, "scenario": scen.name, "spec": dict(scen.spec, x=vals)}
+    d.update(kw)
+    out["bad"].append(d)
+
+
+def check_modes_immutability(ck, scen, base, out):
+    """(3) the value must not depend on the grad mode; (4) no evaluation may change a parameter's tensor;
+    (9) a gradient of unexpected shape is a finding, never an exception"""
+    import torch
+
+    vals = scen.x
+    v0, g0, b0 = base
+    for k, p in b0.params.items():
+        got = [float(t) for t in p.tensor.detach().reshape(-1)]
+        if got != [float(t) for t in _flat(vals[k])]:
+            _finding(out, "parameter-mutated-by-evaluation", scen, vals, leaf=k, after=got[:8])
+            return
+        if g0.get(k) is not None and len(g0[k]) != len(got):
+            _finding(out, "gradient-shape-unexpected", scen, vals, leaf=k, grad_len=len(g0[k]), param_len=len(got))
+            return
+    try:
+        v_ng, _ = eval_value(scen, vals)  # under torch.no_grad()
+        b = scen.make(vals, False)
+        v_en = float(_value(b).detach())  # autograd enabled, nothing requires grad
+    except Exception:
+        return
+    ck.bucket("gradmodes/bitwise-equal" if v_ng == v_en == v0 else "gradmodes/not-bitwise-equal")
+    worst = max(abs(v_ng - v0), abs(v_en - v0))
+    if not (worst <= 1e-12 * max(1.0, abs(v0))):
+        _finding(out, "value-differs-between-grad-modes", scen, vals, no_grad=v_ng, enabled=v_en, requires_grad=v0)
+    del torch
+
+
+def check_accumulation(ck, scen, rng, base, out):
+    """(5) repeated backward on the same object: .grad ACCUMULATES exactly (2x after a second backward), and an
+    evaluation made while the leaves still carry a previous .grad adds exactly the new gradient"""
+    import torch
+
+    vals = scen.x
+    try:
+        b = scen.make(vals, True)
+        names = _history_leaves(scen, b)
+        if not names or len(names) != len(b.params):
+            return
+        val = _value(b)
+        if not val.requires_grad:
+            return
+        val.backward(retain_graph=True)
+        g1 = _grads(b, names)
+        val.backward(retain_graph=True)
+        g2 = _grads(b, names)
+    except Exception as e:
+        _finding(out, "backward-raises-in-history", scen, vals, history=["evaluate", "backward", "backward"],
+                 point=vals, error=f"{type(e).__name__}: {str(e)[:300]}")
+        return
+    for k in names:
+        if g1[k] is None:
+            continue
+        if not _close_lists(g2[k], [2 * x for x in g1[k]], 1e-12, 1e-14):
+            _finding(out, "gradient-accumulation-wrong", scen, vals, leaf=k, history=["evaluate", "backward", "backward"],
+                     after_first=g1[k][:6], after_second=(g2[k] or [])[:6])
+            return
+    new = _moved_point(scen, rng)
+    try:
+        v_f, g_f, b_f = eval_grad(scen, new)
+        if signature(b_f) != signature(b):
+            return
+        for k in names:
+            with torch.no_grad():
+                b.params[k].tensor.copy_(torch.tensor(new[k], dtype=b.params[k].tensor.dtype))
+            b.params[k].fire_parameter_changed()
+        val2 = _value(b)
+        if abs(float(val2.detach()) - v_f) > 1e-9 * max(1.0, abs(v_f)):
+            ck.bucket("history/value-differs(C11 subject)")
+            out["skip"].append((scen.name, "accumulation", "value after in-place update of all leaves differs from fresh"))
+            return
+        val2.backward()
+        g3 = _grads(b, names)
+    except Exception:
+        return
+    ck.case(key=("accumulate", scen.name), bucket="history/accumulation")
+    for k in names:
+        if g1[k] is None or g_f.get(k) is None:
+            continue
+        want = [2 * a + c for a, c in zip(g1[k], g_f[k])]
+        if not _close_lists(g3[k], want, 1e-8, 1e-10):
+            _finding(out, "gradient-accumulation-wrong", scen, new, leaf=k,
+                     history=["evaluate", "backward", "backward", "update all in place + fire", "evaluate", "backward"],
+                     got=(g3[k] or [])[:6], expected_previous_plus_new=want[:6])
+            return
+
+
+def check_deepcopy(ck, scen, rng, base, out):
+    """(5) copy.deepcopy of the live object, updates on the copy: the copy's gradient is the fresh gradient at the
+    new point and the original is untouched"""
+    import copy
+
+    import torch
+
+    vals = scen.x
+    v0, g0, _ = base
+    try:
+        b = scen.make(vals, True)
+        names = _history_leaves(scen, b)
+        if not names or len(names) != len(b.params):
+            return
+        _value(b).backward(retain_graph=True)
+        try:
+            m2, ps2 = copy.deepcopy((b.model, b.params))
+        except Exception:
+            # torch refuses to deep-copy cached non-leaf tensors that carry a graph: copy an object that was
+            # built and evaluated without autograd instead, and enable autograd on the copy
+            try:
+                b = scen.make(vals, False)
+                _value(b)
+                m2, ps2 = copy.deepcopy((b.model, b.params))
+            except Exception:
+                ck.bucket("deepcopy/refused")
+                return
+        new = _moved_point(scen, rng)
+        v_f, g_f, b_f = eval_grad(scen, new)
+        if signature(b_f) != signature(b):
+            return
+        for k in names:
+            ps2[k].tensor = torch.tensor(new[k], dtype=torch.float64, requires_grad=True)
+        val2 = m2().sum()
+    except Exception:
+        return
+    if abs(float(val2.detach()) - v_f) > 1e-9 * max(1.0, abs(v_f)):
+        ck.bucket("deepcopy/value-differs(C11 subject)")
+        return
+    try:
+        val2.backward()
+        got = {k: (None if ps2[k].grad is None else [float(t) for t in ps2[k].grad.reshape(-1)]) for k in names}
+        orig = float(_value(b).detach())
+    except Exception as e:
+        _finding(out, "backward-raises-in-history", scen, new, history=["evaluate", "backward", "deepcopy", "update copy", "evaluate copy", "backward"],
+                 point=new, error=f"{type(e).__name__}: {str(e)[:300]}")
+        return
+    ck.case(key=("deepcopy", scen.name), bucket="history/deepcopy")
+    for k in names:
+        if not _close_lists(got[k], g_f.get(k), 1e-8, 1e-10):
+            _finding(out, "gradient-wrong-on-deepcopy", scen, new, leaf=k, copy_grad=(got[k] or [None])[:6],
+                     fresh_grad=(g_f.get(k) or [None])[:6])
+            return
+    if abs(orig - v0) > 1e-12 * max(1.0, abs(v0)):
+        _finding(out, "original-changed-by-update-of-deepcopy", scen, vals, before=v0, after=orig)
+
+
+def check_device(ck, scen, base, out):
+    """(5) .cpu() and .to(dtype) on the live model, then evaluate and backward"""
+    import torch
+
+    vals = scen.x
+    v0, g0, _ = base
+    try:
+        b = scen.make(vals, True)
+        if not hasattr(b.model, "cpu") or not hasattr(b.model, "to"):
+            return
+        _value(b)
+        b.model.cpu()
+        b.model.to(dtype=torch.float64)
+        for p in b.params.values():
+            if hasattr(p, "fire_parameter_changed"):
+                p.fire_parameter_changed()
+        val = _value(b)
+    except Exception:
+        ck.bucket("device/refused")
+        return
+    if abs(float(val.detach()) - v0) > 1e-9 * max(1.0, abs(v0)):
+        ck.bucket("device/value-differs(C06/C11 subject)")
+        return
+    try:
+        if val.requires_grad:
+            val.backward()
+        got = {k: (None if p.grad is None else [float(t) for t in p.grad.reshape(-1)]) for k, p in b.params.items()}
+    except Exception as e:
+        _finding(out, "backward-raises-in-history", scen, vals, history=["evaluate", ".cpu()", ".to(float64)", "evaluate", "backward"],
+                 point=vals, error=f"{type(e).__name__}: {str(e)[:300]}")
+        return
+    ck.case(key=("device", scen.name), bucket="history/cpu-to")
+    for k in got:
+        if leaf_coords(scen, k) and not _close_lists(got[k], g0.get(k), 1e-8, 1e-10):
+            _finding(out, "gradient-wrong-after-cpu-to", scen, vals, leaf=k, got=(got[k] or [None])[:6],
+                     fresh_grad=(g0.get(k) or [None])[:6])
+            return
+
+
+def check_dtype(ck, scen, base, out):
+    """(2) the same model in float32 (default dtype and parameters): every parameter that has a gradient in float64
+    has a finite one in float32, close to it at float32 accuracy; default float32 with float64 parameters: refused,
+    or the float64 gradient"""
+    import torch
+
+    vals = scen.x
+    v0, g0, _ = base
+    try:
+        with dtype_regime(torch.float32, torch.float32):
+            v32, g32, _b = eval_grad(scen, vals)
+    except Exception:
+        ck.bucket("dtype/float32-refused")
+        v32 = None
+    if v32 is not None and math.isfinite(v32) and abs(v32 - v0) <= 1e-2 * (1.0 + abs(v0)):
+        ck.case(key=("float32", scen.name), bucket="dtype/float32")
+        for k in sorted(vals):
+            coords = leaf_coords(scen, k)
+            if not coords or g0.get(k) is None:
+                continue
+            norm = max(abs(g0[k][c]) for c in coords)
+            if norm > 1e6 or not math.isfinite(norm):
+                continue
+            g = g32.get(k)
+            if g is None:
+                if norm > 1e-2:
+                    _finding(out, "gradient-missing-in-float32", scen, vals, leaf=k, float64_grad=g0[k][:6])
+                    return
+                continue
+            bad = [c for c in coords if not math.isfinite(g[c])]
+            if bad:
+                _finding(out, "non-finite-gradient-in-float32", scen, vals, leaf=k, coord=bad[0], float32_value=v32,
+                         float64_grad=g0[k][:6])
+                return
+            err = max(abs(g[c] - g0[k][c]) for c in coords)
+            if err > 0.1 * norm + 0.1:
+                _finding(out, "float32-gradient-far-from-float64", scen, vals, leaf=k, float32_grad=g[:6],
+                         float64_grad=g0[k][:6])
+                return
+            ck.bucket("dtype/float32-close" if err <= 5e-3 * norm + 5e-3 else "dtype/float32-loose")
+    elif v32 is not None:
+        ck.bucket("dtype/float32-value-off(precision subject)")
+    try:
+        with dtype_regime(torch.float32, torch.float64):
+            v_m, g_m, _b = eval_grad(scen, vals)
+    except Exception:
+        ck.bucket("dtype/default32-param64-refused")
+        return
+    if not (abs(v_m - v0) <= 1e-5 * (1.0 + abs(v0))):
+        ck.bucket("dtype/default32-param64-value-off(precision subject)")
+        return
+    ck.case(key=("default32-param64", scen.name), bucket="dtype/default32-param64")
+    for k in sorted(vals):
+        coords = leaf_coords(scen, k)
+        if not coords or g0.get(k) is None:
+            continue
+        norm = max(abs(g0[k][c]) for c in coords)
+        g = g_m.get(k)
+        if g is None and norm > 1e-6:
+            _finding(out, "gradient-missing-with-float32-default-dtype", scen, vals, leaf=k, float64_grad=g0[k][:6])
+            return
+        if g is not None and not all(abs(g[c] - g0[k][c]) <= 1e-4 * norm + 1e-6 for c in coords):
+            _finding(out, "gradient-differs-with-float32-default-dtype", scen, vals, leaf=k, got=g[:6],
+                     float64_grad=g0[k][:6])
+            return
+
+
+def check_batched(ck, scen, rng, base, out):
+    """(6) a leading sample dimension on every leaf: the gradient of the SUM over samples, row by row, is the
+    per-sample gradient; when the configuration holds special values, only row 0 holds them"""
+    vals = scen.x
+    S = rng.choice([2, 3])
+    rows = [dict(vals)]
+    for _ in range(S - 1):
+        r = _moved_point(scen, rng)
+        for k in scen.spec.get("fixed", []) + ([n for n in ("s", "rho", "r") if scen.spec.get("special")]):
+            if k not in r or scen.bounds.get(k) != [0.0, 1.0]:
+                continue
+            coords = set(leaf_coords(scen, k))
+            r[k] = [x if i in coords else rng.uniform(0.2, 0.6) for i, x in enumerate(r[k])]
+        rows.append(r)
+    try:
+        singles = []
+        sig0 = None
+        for r in rows:
+            v, g, b = eval_grad(scen, r)
+            gap = min_gap(b)
+            if not math.isfinite(v) or (gap is not None and gap < 1e-3):
+                return
+            singles.append((v, g))
+        batched = {k: [r[k] for r in rows] for k in vals}
+        bb = scen.make(batched, True)
+        val = bb.model()
+    except Exception:
+        ck.bucket("batched/refused")
+        return
+    del sig0
+    try:
+        flat = [float(t) for t in val.detach().reshape(-1)]
+    except Exception:
+        ck.bucket("batched/unexpected-output(C10 subject)")
+        return
+    if len(flat) != S or not all(abs(a - s_[0]) <= 1e-9 * max(1.0, abs(s_[0])) for a, s_ in zip(flat, singles)):
+        ck.bucket("batched/value-differs(C10 subject)")
+        return
+    try:
+        if val.requires_grad:
+            val.sum().backward()
+    except Exception as e:
+        _finding(out, "backward-raises-in-history", scen, vals, history=["batched evaluate", "sum().backward()"], point=batched,
+                 error=f"{type(e).__name__}: {str(e)[:300]}")
+        return
+    ck.case(key=("batched", scen.name, S), bucket="history/batched")
+    for k, p in bb.params.items():
+        coords = leaf_coords(scen, k)
+        if not coords:
+            continue
+        gr = p.grad
+        for ri, (v, g) in enumerate(singles):
+            want = g.get(k)
+            got = None if gr is None else [float(t) for t in gr[ri].reshape(-1)]
+            for c in coords:
+                a = 0.0 if got is None else got[c]
+                w = 0.0 if want is None else want[c]
+                if not (abs(a - w) <= 1e-7 * max(abs(a), abs(w)) + 1e-9):
+                    _finding(out, "batched-gradient-differs-from-per-sample", scen, rows[ri], leaf=k, row=ri, coord=c,
+                             rows=rows, batched_grad=a, per_sample_grad=w)
+                    return
+
+
+def check_routes(ck, scen, base, out):
+    """(1) the same object through the other construction routes: JSON with full dotted type names, reversed key
+    order and every sub-object processed first and referenced by id; keyword / positional constructors with the
+    trees from the json_factory helpers.  Value and gradient must be those of the inline short-name JSON."""
+    import c12_scen
+
+    if not c12_scen.route_eligible(scen.spec) or scen.spec.get("route"):
+        return
+    v0, g0, _ = base
+    for route in ("ref", "ctor"):
+        spec = dict(scen.spec, route=route)
+        try:
+            sc = c12_scen.scenario(spec)
+            v, g, _b = eval_grad(sc, sc.x)
+        except Exception as e:
+            _finding(out, "construction-route-fails", sc if "sc" in dir() else scen, scen.x, route=route,
+                     error=f"{type(e).__name__}: {str(e)[:300]}")
+            out["bad"][-1]["spec"] = spec
+            continue
+        ck.case(key=("route", route, scen.name), bucket="routes/" + route)
+        if abs(v - v0) > 1e-12 * max(1.0, abs(v0)) or any(
+                not _close_lists([(g.get(k) or [0.0] * len(scen.x[k]))[c] for c in leaf_coords(scen, k)],
+                                 [(g0.get(k) or [0.0] * len(scen.x[k]))[c] for c in leaf_coords(scen, k)], 1e-10, 1e-12)
+                for k in g0):
+            _finding(out, "route-built-object-differs", sc, scen.x, route=route, value=v, inline_json_value=v0)
+
+
+FOURTH = {"accumulate": check_accumulation, "deepcopy": check_deepcopy, "device": check_device, "dtype": check_dtype,
+          "batched": check_batched}
+
+
+def check_fourth(ck, scen, rng, out, which):
+    try:
+        base = eval_grad(scen, scen.x)
+    except Exception:
+        return
+    if not math.isfinite(base[0]):
+        return
+    gap = min_gap(base[2])
+    if gap is not None and gap < 1e-3:
+        return
+    check_modes_immutability(ck, scen, base, out)
+    check_routes(ck, scen, base, out)
+    for w in which:
+        if out_of_time() or any(b["scenario"] == scen.name for b in out["bad"]):
+            return
+        if w in ("device", "dtype"):
+            FOURTH[w](ck, scen, base, out)
+        else:
+            FOURTH[w](ck, scen, rng, base, out)
 
 
 # ----------------------------------------------------------------------------- self test of the FD machinery
@@ -726,12 +1151,14 @@ def _run(ck: Check):
             out["skip"].append((scen.name, "unexpected-exception", f"{type(e).__name__}: {str(e)[:160]}"))
         done += 1
     ck.extra["configurations_checked"] = done
+    probe_eigh_degenerate(ck, rng)
+    ck.extra["tensor_constructors_without_dtype_or_device"] = scan_constructors()
     _finish(ck, out, fam_seen, ok, broken, st_ok)
 
 
 def _one_configuration(ck, scen, spec, rng, thorough, i, out):
     if True:
-        check_scenario(ck, scen, rng, 5 if thorough else 4, None if thorough else 3, out)
+        check_scenario(ck, scen, rng, 5 if thorough else 4, None if thorough else 2, out)
         if spec.get("expect_switch"):
             try:
                 _b = scen.make(scen.x, False)
@@ -746,6 +1173,72 @@ def _one_configuration(ck, scen, spec, rng, thorough, i, out):
         # histories on live objects: late enabling of autograd, single-parameter updates
         check_histories(ck, scen, rng, out,
                         ("late", "assign", "inplace") if thorough else ("late", ("assign", "inplace")[i % 2]))
+        if out_of_time() or any(b["scenario"] == scen.name for b in out["bad"]):
+            return
+        # how the object is reached: routes, grad modes, immutability always; the rest rotates in quick
+        check_fourth(ck, scen, rng, out,
+                     tuple(FOURTH) if thorough else ("accumulate", ("deepcopy", "device", "dtype", "batched")[i % 4]))
+
+
+ANCHORED = ["torchtree/evolution/tree_likelihood.py", "torchtree/evolution/tree_height_transform.py",
+            "torchtree/evolution/site_model.py", "torchtree/evolution/coalescent.py", "torchtree/evolution/bdsk.py",
+            "torchtree/distributions/gmrf.py"]
+
+
+def scan_constructors():
+    """tensor constructors in the anchored files that name neither dtype nor device (they take torch's DEFAULT
+    dtype: the places where a float32 default meets float64 parameters); listed in the evidence"""
+    import ast
+
+    from common import REPO
+
+    names = {"tensor", "zeros", "ones", "full", "arange", "eye", "linspace", "empty", "rand", "randn"}
+    found = []
+    for rel in ANCHORED:
+        try:
+            tree = ast.parse((REPO / rel).read_text())
+        except Exception:
+            continue
+        for node in ast.walk(tree):
+            if (isinstance(node, ast.Call) and isinstance(node.func, ast.Attribute) and node.func.attr in names
+                    and isinstance(node.func.value, ast.Name) and node.func.value.id == "torch"):
+                kws = {k.arg for k in node.keywords}
+                if not ({"dtype", "device"} & kws) and None not in kws:
+                    found.append(f"{rel}:{node.lineno} torch.{node.func.attr}(...)")
+    return found
+
+
+KNOWN_SIG_EIGH = "wrong-gradient:eigh-repeated-eigenvalue:HKY-uniform-frequencies"
+
+
+def probe_eigh_degenerate(ck, rng):
+    """HKY at uniform frequencies (repeated eigenvalue of the matrix handed to eigh): autograd's gradient in the
+    frequencies against the finite difference.  A disagreement is the finding proposed in fixes/KNOWN-C12.txt: it is
+    reported through ck.violation (-> KNOWN-FINDING) once the signature is listed in KNOWN_FINDINGS.txt, and
+    recorded in the evidence (`proposed_known_findings`) until then."""
+    import c12_scen
+
+    try:
+        scen = c12_scen.scenario(c12_scen.gen_eigh_degenerate(rng))
+        v0, g, b0 = eval_grad(scen, scen.x)
+        dvec = [1.0, -0.5, 0.7, -0.9]
+        fd = fd_directional(scen, scen.x, {"freqs": dvec}, None, 0.01, 5)
+        gd = sum(a * c for a, c in zip(g["freqs"], dvec))
+    except Exception as e:
+        ck.notes.append(f"eigh-degenerate probe not evaluated: {type(e).__name__}")
+        return
+    ck.case(key=("probe", "eigh-degenerate"), bucket="probe/eigh-repeated-eigenvalue",
+            sample={"scenario": scen.name, "autograd": gd, "finite_difference": fd["d"]})
+    if abs(gd - fd["d"]) <= tolerance(gd, fd):
+        ck.extra["eigh_degenerate_probe"] = "autograd agrees with the finite difference"
+        return
+    what = (f"{scen.name}: d/dfreqs[dir] autograd={gd:.8g} but finite difference of the returned value = "
+            f"{fd['d']:.8g} (torch.linalg.eigh backward at a repeated eigenvalue)")
+    if any(ks == KNOWN_SIG_EIGH for ks, _ in ck.known):
+        ck.violation(KNOWN_SIG_EIGH, what, {"finding": {"kind": "wrong-gradient", "scenario": scen.name, "spec": scen.spec,
+                                                         "leaf": "freqs", "direction": dvec, "label": "dir", "h0": 0.01}})
+    else:
+        ck.extra["proposed_known_findings"] = [{"sig": KNOWN_SIG_EIGH, "what": what, "file": "fixes/KNOWN-C12.txt"}]
 
 
 def _finish(ck, out, fam_seen, ok, broken, st_ok):
@@ -775,6 +1268,15 @@ def _finish(ck, out, fam_seen, ok, broken, st_ok):
         )
 
 
+GENERIC_KINDS = {
+    "parameter-mutated-by-evaluation", "gradient-shape-unexpected", "value-differs-between-grad-modes",
+    "gradient-accumulation-wrong", "gradient-wrong-on-deepcopy", "original-changed-by-update-of-deepcopy",
+    "gradient-wrong-after-cpu-to", "gradient-missing-in-float32", "non-finite-gradient-in-float32",
+    "float32-gradient-far-from-float64", "gradient-missing-with-float32-default-dtype",
+    "gradient-differs-with-float32-default-dtype", "batched-gradient-differs-from-per-sample",
+    "construction-route-fails", "route-built-object-differs"}
+
+
 def _describe(bad):
     k = bad["kind"]
     if k == "non-finite-gradient":
@@ -792,6 +1294,9 @@ def _describe(bad):
         return (f"{bad['scenario']}: after the history {bad['history']} d/d{bad['leaf']}[{bad['coord']}] = "
                 f"{'None' if bad['grad_is_none'] else '%.10g' % bad['history_grad']} but the finite difference of the "
                 f"returned value = {bad['finite_difference']:.10g} (fresh objects: {bad['fresh_object_grad']:.10g})")
+    if k in GENERIC_KINDS:
+        extra = {x: bad[x] for x in bad if x not in ("kind", "scenario", "spec", "rows", "point")}
+        return f"{bad['scenario']}: {k}: " + json.dumps(extra, default=str)[:400]
     if k == "backward-raises-in-history":
         return f"{bad['scenario']}: after the history {bad['history']} backward raises {bad.get('error', '')}"
     return f"{bad['scenario']}: {k}: {bad.get('error', '')}"
@@ -836,6 +1341,13 @@ def replay(path: str) -> int:
     ck = Check("C12", "quick", 0)
     if bad["kind"] == "backward-raises":
         check_scenario(ck, scen, random.Random(0), 4, 1, out)
+    elif bad["kind"] in GENERIC_KINDS or (bad["kind"] == "backward-raises-in-history" and "batched" in str(bad.get("history"))):
+        if bad.get("route"):
+            scen = c12_scen.scenario(dict(bad["spec"], route=None))
+        for sd in range(6):
+            check_fourth(ck, scen, random.Random(sd), out, tuple(FOURTH))
+            if out["bad"]:
+                break
     elif "history" in bad:
         # the recorded history is re-enacted for a handful of random parameter choices
         for sd in range(12):
